@@ -373,6 +373,7 @@ def generate(rng: random.Random, tier: str) -> dict:
                 "recompute": rng.choice([0.0, 0.0, 0.1, 0.3]),
                 "stall": rng.choice([0.0, 0.0, 0.1]),
                 "policy": draw_policy(rng, groups=None, horizon=200),
+                "trace": rng.choice(["seams", "lines"]),
             }
             for _ in range(2)
         ],
@@ -531,6 +532,7 @@ def execute(record: dict, rng: Optional[random.Random]) -> Outcome:
         "global_pairs_raising": 0,
         "extreme_zoom_in": 0,
         "paired_requests": 0,
+        "line_preemption_runs": 0,
         "source_holds_nodata_pixels": 0,
         "chunk_with_gdal_identity_transform": 0,
         "destination_chunk_equals_source_chunk": 0,
@@ -624,7 +626,11 @@ def execute(record: dict, rng: Optional[random.Random]) -> Outcome:
             elif pair:
                 rd2 = xr_reproject(xd, d_gbox, **ckw, **kw2)
             ch.policy = dcfg.get("policy") or {"kind": "uniform"}
-            kernel = Kernel(seam_funcs=_seams()) if dcfg["workers"] > 1 else None
+            # pre-emption at the entry of the three seam functions, or ("trace": "lines") at every line of the
+            # chunk-level code (_dask.py, _blocks.py, warp.py) that runs inside tasks
+            kernel = (Kernel(trace_files=_line_files()) if dcfg.get("trace") == "lines" else Kernel(seam_funcs=_seams())) if dcfg["workers"] > 1 else None
+            if kernel is not None and dcfg.get("trace") == "lines":
+                probes["line_preemption_runs"] = 1
             sim = DaskSim(
                 ch,
                 log,
@@ -745,6 +751,14 @@ def _hash_arr(a: np.ndarray) -> str:
 
 
 _SEAMS: Optional[Tuple[Tuple[str, str], ...]] = None
+
+
+def _line_files() -> Tuple[str, ...]:
+    import odc.geo._blocks as B
+    import odc.geo._dask as OD
+    import odc.geo.warp as W
+
+    return (OD.__file__, B.__file__, W.__file__)
 
 
 def _seams() -> Tuple[Tuple[str, str], ...]:
@@ -891,7 +905,7 @@ def _nan(a: np.ndarray) -> np.ndarray:
 def candidates(record: dict) -> Iterable[dict]:
     cfg = record["config"]
     wl = record["workload"]
-    simple_dask = {"workers": 1, "optimize": True, "transport": 0.0, "recompute": 0.0, "stall": 0.0, "policy": None}
+    simple_dask = {"workers": 1, "optimize": True, "transport": 0.0, "recompute": 0.0, "stall": 0.0, "policy": None, "trace": "seams"}
     for i in range(2):
         if cfg["dask"][i] != simple_dask:
             c = copy.deepcopy(record)
